@@ -33,7 +33,7 @@ RULE = (
     "process per FLOW_RECORD_IGNORE value (unset, '_generated', '_source,_generated', a data field, empty) running a script of "
     "explicit set_ignored_fields_for_comparison calls and (nested, failing) scopes incl. explicitly empty ones: a dictionary model "
     "of the configuration in force (environment default until the first explicit call, explicit = exactly what was given, restored "
-    "after a scope) decides every probe; 'edges' = range-edge values of 20 types (datetime min / max and year 1 / 9999 within their offset of the edge, +-2**63 / 2**200 integers, nan / inf / -0.0 / denormals, empty versus None, 64 KiB texts, non-NFC text, byte escapes, all-zero / all-one addresses, /0 and /128 networks, empty paths / digests) as scalar, as T[] element and as _generated: rebuilt copies equal, every pair compared, sets and dicts built - nothing may raise; 'variants' = 34 pairs of representations of the same logical input (str / bytes values and group / type / field names, int / equal float / bool, naive / UTC / text / epoch timestamps, text / object addresses and paths, tuple / dict / list digests, hex case, list / tuple) must give the same observation, equal records, equal hashes; grouped cases also compare seven structural variants (a member twice, an extra member of an existing type, nested groups flattening to the same members, reversed members): equal exactly when the canonical observation is the same; thorough tier: every field varied under every single-field ignore set, up to 28 field pairs and 6 all-but-one sets, groups of up to 6 members, up to 16 modification rounds, recursion depth up to 9, dict nesting depth 4, ~1000 environment children; 'nametwin' = descriptors with identical fields whose names differ only in '/' versus '_' (plus clones and same-name-other-fields descriptors) created before and after the compared records: different names => unequal, hash / reported descriptor name / observation of untouched records stable; 'scope2' = scopes ended through a suspended generator (close / exhaust / throw / drop), recursion, and an explicit set inside a scope; every scope and set call goes through one of the two public entry points flow.record.X / flow.record.base.X; " 
+    "after a scope) decides every probe; 'edges' = range-edge values of 20 types (datetime min / max and year 1 / 9999 within their offset of the edge, +-2**63 / 2**200 integers, nan / inf / -0.0 / denormals, empty versus None, 64 KiB texts, non-NFC text, byte escapes, all-zero / all-one addresses, /0 and /128 networks, empty paths / digests) as scalar, as T[] element and as _generated: rebuilt copies equal, every pair compared, sets and dicts built - nothing may raise; 'variants' = 34 pairs of representations of the same logical input (str / bytes values and group / type / field names, int / equal float / bool, naive / UTC / text / epoch timestamps, text / object addresses and paths, tuple / dict / list digests, hex case, list / tuple) must give the same observation, equal records, equal hashes; grouped cases also compare seven structural variants (a member twice, an extra member of an existing type, nested groups flattening to the same members, reversed members): equal exactly when the canonical observation is the same; thorough tier: every field varied under every single-field ignore set, up to 28 field pairs and 6 all-but-one sets, groups of up to 6 members, up to 16 modification rounds, recursion depth up to 9, dict nesting depth 4, ~1000 environment children; 'rawlist' = T[] fields of 19 element types filled in place with plain untyped values (append / extend / insert / item and slice assignment; plain, grouped member, nested in record / record[]): ==, !=, hash and set / dict membership must not raise and agree with a record rebuilt from the same values; 'nametwin' = descriptors with identical fields whose names differ only in '/' versus '_' (plus clones and same-name-other-fields descriptors) created before and after the compared records: different names => unequal, hash / reported descriptor name / observation of untouched records stable; 'scope2' = scopes ended through a suspended generator (close / exhaust / throw / drop), recursion, and an explicit set inside a scope; every scope and set call goes through one of the two public entry points flow.record.X / flow.record.base.X; " 
     "'classcache' = equal descriptors re-created (directly / from a stream / as grouped members) "
     "after the lru_cache of generated record classes overflowed; 'coincident' = two different descriptors whose identifiers coincide by construction; 'ipfamily' = addresses of "
     "different family / scope with the same integer; 'scope' = the ignore configuration installed by "
@@ -60,7 +60,7 @@ ASSUMPTIONS = [
     "entry is the name '' which matches no field, duplicates collapse; unset or empty = nothing ignored); field names are case sensitive",
 ]
 SHARDS = {"quick": 8, "thorough": 16}
-BUDGET_S = {"quick": 150, "thorough": 1800}
+BUDGET_S = {"quick": 150, "thorough": 3600}
 
 ANCHORS = [
     "flow.record.base:Record.__eq__",
@@ -110,6 +110,15 @@ KEY_STALE_HASH = "hash-stale-after-mutation"
 KEY_CLASS_IDENTITY = "equality-depends-on-record-class-identity"
 
 
+# plain (UNTYPED) values a caller may put into a typed list in place; the library converts them while packing
+RAW_LIST_ELEMENTS = {
+    "path": ["/etc/shadow", "relative/x y", "c"], "command": ["ls -la /tmp", "/bin/sh -c 'echo hi'", "x"],
+    "digest": [("d41d8cd98f00b204e9800998ecf8427e", None, None), (None, "da39a3ee5e6b4b0d3255bfef95601890afd80709", None)], "string": ["raw text", b"raw \xff bytes", ""],
+    "wstring": ["raw w"], "varint": [0, -1, 2**70], "uint16": [0, 65535, 80], "uint32": [4294967295, 1], "float": [1, 2.5], "boolean": [True, 0], "uri": ["http://raw.example/x?y"],
+    "net.ipaddress": ["10.1.2.3", "2001:db8::5"], "net.ipnetwork": ["10.0.0.0/8", "10.1.2.3"], "filesize": [12345], "unix_file_mode": [0o644],
+    "datetime": ["2020-01-02T03:04:05", _dt.datetime(2021, 2, 3, 4, 5, 6), _dt.datetime(2021, 2, 3, 4, 5, 6, tzinfo=_dt.timezone(_dt.timedelta(hours=2))), 0], "bytes": [b"raw", b""],
+    "net.tcp.Port": [443],
+}
 EDGE_TYPES = ("datetime", "varint", "filesize", "float", "string", "wstring", "bytes", "net.ipaddress", "net.ipnetwork", "path", "digest", "uint16", "uint32", "boolean", "uri",
               "stringlist", "dictlist", "dynamic", "unix_file_mode", "command")
 
@@ -166,6 +175,11 @@ def generate(ctx):
         for i in range(ctx.scale(30, 3600)):
             if ctx.mine(idx):
                 yield {"k": "mutate", "shape": shape, "s": subseed("c12", ctx.seed, "mutate", shape, i), "rounds": ctx.scale(4, 16)}
+            idx += 1
+    for rep in range(ctx.scale(3, 120)):
+        for t in sorted(RAW_LIST_ELEMENTS):
+            if ctx.mine(idx):
+                yield {"k": "rawlist", "t": t, "s": subseed("c12", ctx.seed, "rawlist", t, rep), "rounds": ctx.scale(4, 12)}
             idx += 1
     for i in range(ctx.scale(24, 4000)):
         if ctx.mine(idx):
@@ -1168,6 +1182,80 @@ def run_mutate(ctx, case):
     ctx.sample({"case": case, "final": describe(x)}, kind="mutate:" + shape)
 
 
+def run_rawlist(ctx, case):
+    """A T[] field is filled IN PLACE with plain, untyped values (append / extend / insert / item and slice assignment on the typed
+    list): the library converts such elements while packing, so ==, !=, hash and set / dict membership must not raise and the live
+    record must equal, and hash like, a record REBUILT from the same values (the constructor converts them), and differ from a
+    rebuilt copy of the state before.  Plain record, nested in a holder's record / record[] field, and as a grouped member."""
+    from flow.record import GroupedRecord, RecordDescriptor
+
+    rng = random.Random(case["s"])
+    t = case["t"]
+    raws = RAW_LIST_ELEMENTS[t]
+    d = RecordDescriptor("c12/rawlist", [(t + "[]", "items"), ("string", "s")])
+    o = RecordDescriptor("c12/rawlist_other", [("varint", "n")])
+    h = RecordDescriptor("c12/rawlist_holder", [("record", "inner"), ("record[]", "inners")])
+    shape = rng.choice(["plain", "grouped", "holder", "holder-list"])
+
+    def build(values):
+        r = d(items=list(values), s="x", _generated=STAMP)
+        if shape == "grouped":
+            return GroupedRecord("c12/rawlistgroup", [r, o(n=1, _generated=STAMP)]), r
+        if shape == "holder":
+            return h(inner=r, _generated=STAMP), r
+        if shape == "holder-list":
+            return h(inners=[r], _generated=STAMP), r
+        return r, r
+
+    state = [rng.choice(raws) for _ in range(rng.randint(0, 2))]
+    x, live = build(state)
+    info0 = {"case": case, "shape": shape}
+    for rnd in range(rng.randint(1, case.get("rounds", 4))):
+        y_old, _ = build(state)
+        compare(ctx, x, y_old, "equal", dict(info0, pair="before the in-place fill %d" % rnd, a=describe(x), b=describe(y_old), config="none", key="typed-list-raw-element-breaks-comparison"))
+        new = list(state)
+        raw = rng.choice(raws)
+        ops = ["append", "extend", "insert"] + (["setitem", "slice"] if state else [])
+        op = rng.choice(ops)
+        if op == "append":
+            live.items.append(raw)
+            new.append(raw)
+        elif op == "extend":
+            more = [raw, rng.choice(raws)]
+            live.items.extend(more)
+            new.extend(more)
+        elif op == "insert":
+            i = rng.randint(0, len(state))
+            live.items.insert(i, raw)
+            new.insert(i, raw)
+        elif op == "setitem":
+            i = rng.randrange(len(state))
+            live.items[i] = raw
+            new[i] = raw
+        else:
+            live.items[0:1] = [raw, raw]
+            new[0:1] = [raw, raw]
+        y_new, _ = build(new)
+        ctx.event("rawlist_fills:" + op)
+        ctx.cell("rawlist", t, op)
+        info = dict(info0, fill=op, raw=describe(raw), a=describe(x), round=rnd)
+        changed = observe.obs(y_new) != observe.obs(y_old)
+
+        def both(label):
+            compare(ctx, x, y_new, "equal", dict(info, pair="record with raw list elements vs record rebuilt from the same values", b=describe(y_new), config=label,
+                                                 key="typed-list-raw-element-breaks-comparison"))
+            compare(ctx, x, y_old, "unequal" if changed else "equal", dict(info, pair="record with raw list elements vs rebuilt copy of the state before", b=describe(y_old), config=label,
+                                                                              because="an element was put into the list in place (%s)" % op))
+            reflexive(ctx, x, dict(info, config=label))
+            ctx.event("rawlist_pairs_checked")
+
+        both("none")
+        Config(ctx, {"_generated"}, "scope", rng.choice(CONTAINERS), inject=rng.random() < 0.5, rng=rng).run(lambda: both("_generated"))
+        state = new
+    ctx.nontrivial("rawlist", t, shape, case["s"])
+    ctx.sample({"case": case, "shape": shape, "final": describe(x)}, kind="rawlist:" + shape)
+
+
 # ---- FLOW_RECORD_IGNORE: one worker process per environment ----------------------------------------------
 def env_script(rng):
     """operations for verif/worker_c12.py; see there"""
@@ -1839,6 +1927,8 @@ def execute(ctx, case):
         run_variants(ctx, case)
     elif k == "mutate":
         run_mutate(ctx, case)
+    elif k == "rawlist":
+        run_rawlist(ctx, case)
     elif k == "scope2":
         run_scope2(ctx, case)
     elif k == "nametwin":
@@ -1885,6 +1975,8 @@ def finish(ctx):
     if any(c.startswith("variants/") for c in ctx.cells):
         ctx.require(ev.get("variant_pairs", 0) > 0, "the representation-variant family compared nothing")
     ctx.require(ev.get("grouped_structural_pairs", 0) > 0, "no structural variant of a grouped record was compared")
+    if any(c.startswith("rawlist/") for c in ctx.cells):
+        ctx.require(ev.get("rawlist_pairs_checked", 0) > 0, "the raw-list-element family compared nothing")
     ctx.require(ev.get("mutate_pairs_checked", 0) > 0, "hash / == coherence across mutation was never checked")
     ctx.require(ev.get("mutate_model_selfcheck_failed", 0) == 0, "the mutation model disagreed with the observed record (%d cases)" % ev.get("mutate_model_selfcheck_failed", 0))
     if ctx.state.get("classcache_ran"):
